@@ -68,7 +68,7 @@ AsSet(s) == {s[i] : i \in 1..Len(s)}
 QDiffTypes(a, b) ==    \* event types on which two queues (bags) differ
     {a[i].ty : i \in {i \in 1..Len(a) : Count(a, a[i]) # Count(b, a[i])}} \cup
     {b[i].ty : i \in {i \in 1..Len(b) : Count(a, b[i]) # Count(b, b[i])}}
-TsFields == {"st", "pss", "rel", "irel", "dl", "start", "rem", "last", "fin", "cat", "pool", "plan", "prob"}
+TsFields == {"st", "pss", "rel", "irel", "dl", "start", "rem", "last", "fin", "cat", "pool", "plan", "prob", "ppool"}
 Diff(E, L) ==
     (IF E.now # L.now THEN {<<"now", "">>} ELSE {}) \cup
     {<<"q", ty>> : ty \in QDiffTypes(E.q, L.q)} \cup
